@@ -52,7 +52,8 @@ ASSUMPTIONS = [
 REQUIRED = ["io_roundtrips", "io_tiff", "io_npy", "io_nrrd", "io_uint_to_float", "io_float_to_uint",
             "io_same_kind", "io_size1_axis", "io_rgb", "io_3d_input", "rasters", "voxels_compared",
             "voxels_lit", "raster_anisotropic", "raster_generic_resolution", "raster_far_positions",
-            "raster_saved_and_read", "raster_explicit_ranges", "tap_get_samplers"]
+            "raster_saved_and_read", "raster_explicit_ranges", "rasters_after_inplace_edit",
+            "tap_get_samplers"]
 FLOOR = {"quick": 500, "thorough": 10000}
 SHARDS = {"quick": 8, "thorough": 16}
 TIMEOUT = {"quick": 400, "thorough": 3000}
@@ -215,18 +216,40 @@ def raster_tree(case):
 
 
 def check_raster(ctx, case, tmp):
-    from swcgeom.images.io import read_imgs
     from swcgeom.transforms import ToImageStack
 
     tree, pid = raster_tree(case)
+    res_arg = case["res"] if not case.get("scalar_res") else case["res"][0]
+    tf = ToImageStack(res_arg)
+    if _raster_pass(ctx, case, tmp, tree, pid, tf, res_arg, "") is not True:
+        return
+    if case.get("edit") and case["ranges"] == "auto":
+        # the same transformer on the same tree object after an in-place edit through node
+        # handles: the raster must follow the new geometry
+        rng = np.random.default_rng(case["seed"] + 11)
+        n = len(pid)
+        vox = float(np.mean(case["res"]))
+        for _ in range(2):
+            i = int(rng.integers(0, n))
+            nd = tree.node(i)
+            d = rng.normal(size=3)
+            d = d / np.linalg.norm(d) * vox * float(rng.uniform(2, 5))
+            nd.x, nd.y, nd.z = float(nd.x + d[0]), float(nd.y + d[1]), float(nd.z + d[2])
+        j = int(rng.integers(0, n))
+        tree.node(j).r = float(tree.node(j).r * 1.6)
+        ctx.count("rasters_after_inplace_edit")
+        _raster_pass(ctx, case, tmp, tree, pid, tf, res_arg, "after an in-place edit of the tree: ")
+
+
+def _raster_pass(ctx, case, tmp, tree, pid, tf, res_arg, prefix):
+    from swcgeom.images.io import read_imgs
+
     X = tree.xyz().astype(np.float64)
     R = tree.r().astype(np.float64)
     for c, p in enumerate(pid):
         if p >= 0 and np.linalg.norm(X[c] - X[p]) <= abs(R[c] - R[p]) * 1.1 + 1e-3:
             ctx.skip("an edge is not a proper round cone")
             return
-    res_arg = case["res"] if not case.get("scalar_res") else case["res"][0]
-    tf = ToImageStack(res_arg)
     st = tf.resolution.astype(np.float64)
     if case["ranges"] == "auto":
         cmin = np.floor((X - R[:, None]).min(0).astype(np.float32)).astype(np.float64)
@@ -269,7 +292,7 @@ def check_raster(ctx, case, tmp):
     except BaseException as e:  # pyo3 PanicException derives from BaseException
         if isinstance(e, (KeyboardInterrupt, SystemExit, probes.StepBudgetExceeded)):
             raise
-        return ctx.violation("raster-raised", f"ToImageStack({res_arg}) raised {type(e).__name__}: "
+        return ctx.violation("raster-raised", f"{prefix}ToImageStack({res_arg}) raised {type(e).__name__}: "
                                               f"{str(e)[:200]} (z range {cmin[2]}..{cmax[2]})", case)
     ctx.count("rasters")
     if len(set(np.round(st, 6))) > 1:
@@ -283,7 +306,7 @@ def check_raster(ctx, case, tmp):
         if edge_risky:
             ctx.skip("a boundary voxel centre lies within rounding of the upper bound")
             return
-        return ctx.violation("raster-shape", f"ToImageStack({res_arg}): shape {img.shape}, the "
+        return ctx.violation("raster-shape", f"{prefix}ToImageStack({res_arg}): shape {img.shape}, the "
                                              f"bounding box {cmin.tolist()}..{cmax.tolist()} holds "
                                              f"(Z, X, Y) = {want_shape} voxel centres", case)
     if img.dtype != np.uint8:
@@ -308,7 +331,7 @@ def check_raster(ctx, case, tmp):
         q = int(np.nonzero(bad)[0][0])
         return ctx.violation(
             "voxel-wrong",
-            f"ToImageStack({res_arg}): {int(bad.sum())} of {len(P)} voxels disagree with the "
+            f"{prefix}ToImageStack({res_arg}): {int(bad.sum())} of {len(P)} voxels disagree with the "
             f"geometry ({int((lit & bad).sum())} lit outside, {int((~lit & bad).sum())} dark inside); "
             f"e.g. voxel (k,i,j)=({int(K.ravel()[q])},{int(I.ravel()[q])},{int(J.ravel()[q])}) "
             f"centre {P[q].round(3).tolist()} signed distance {d[q]:.4f} lit={bool(lit[q])}", case)
@@ -324,6 +347,7 @@ def check_raster(ctx, case, tmp):
             return ctx.violation("saved-raster-differs",
                                  f"transform_and_save -> read_imgs gives shape {back.shape}, the "
                                  f"in-memory raster is (Z,X,Y)={img.shape}", case)
+    return True
 
 
 def execute(ctx, case):
@@ -398,7 +422,7 @@ def run(ctx):
                     "rscale": float(rng.choice([0.4, 0.8, 1.5, 3.0])),
                     "step": float(rng.choice([1.5, 3.0, 6.0])), "origin": origin,
                     "ranges": str(rng.choice(["auto", "auto", "auto", "pad", "crop"])),
-                    "save": bool(rng.random() < 0.25)}
+                    "save": bool(rng.random() < 0.25), "edit": bool(rng.random() < 0.35)}
             ctx.case(case, klass="raster")
             execute(ctx, case)
     ctx.count("tap_get_samplers", tap.counts["get_samplers"])
